@@ -282,7 +282,10 @@ func (m *Sim) nameLock(p unsafe.Pointer) string {
 		}
 		_ = pre
 	}
-	for _, s := range m.streamsSeen {
+	m.mu.Lock()
+	seen := m.streamsSeen
+	m.mu.Unlock()
+	for _, s := range seen {
 		if p == unsafe.Pointer(&s.lock) {
 			return "stream.lock"
 		}
@@ -290,20 +293,9 @@ func (m *Sim) nameLock(p unsafe.Pointer) string {
 			return "stream.writeLock"
 		}
 	}
-	// streams created by inbound data are not yet known to the harness: look them up
-	for _, a := range m.As {
-		if a == nil {
-			continue
-		}
-		for _, s := range a.streams {
-			if p == unsafe.Pointer(&s.lock) {
-				return "stream.lock"
-			}
-			if p == unsafe.Pointer(&s.writeLock) {
-				return "stream.writeLock"
-			}
-		}
-	}
+	// (streams created by inbound data stay unnamed until the harness has accepted them; the
+	// scheduler retries the naming on every acquisition of an unnamed lock.  Scanning a.streams
+	// here would race with the read loop in a wake window.)
 	return ""
 }
 
@@ -339,6 +331,7 @@ var bubbleRe = regexp.MustCompile(`synctest bubble (\d+)`)
 // runExec executes the scenario once under the given choice prefix.
 func runExec(t *testing.T, sc *Scenario, prefix []int, sigs []string, keepSigs bool) *Exec {
 	x := &Exec{}
+	goroutineBaseline = runtime.NumGoroutine()
 	func() {
 		defer func() {
 			if r := recover(); r != nil {
@@ -387,8 +380,20 @@ func runExec(t *testing.T, sc *Scenario, prefix []int, sigs []string, keepSigs b
 	return x
 }
 
-// leakedGoroutines lists goroutines of the current bubble other than the caller.
+// goroutine accounting: the full stack dump is only taken when the process-wide goroutine
+// count says that something of this execution is still alive.
+var goroutineBaseline int
+
 func leakedGoroutines() []string {
+	// inside the bubble at this point: the runner goroutine, the scheduler (caller) and whatever leaked
+	if n := runtime.NumGoroutine(); goroutineBaseline > 0 && n <= goroutineBaseline+2 {
+		return nil
+	}
+	return leakedGoroutinesSlow()
+}
+
+// leakedGoroutinesSlow lists goroutines of the current bubble other than the caller.
+func leakedGoroutinesSlow() []string {
 	buf := make([]byte, 1<<20)
 	n := runtime.Stack(buf, true)
 	blocks := strings.Split(string(buf[:n]), "\n\n")
